@@ -28,7 +28,7 @@ variable (n b' : Nat) (a c : Int) (i' j' : Nat) (w : MW) (hn : 1 ≤ n) (hn2 : n
 include hn hn2 hb' ha ha' hc hc' hi' hj' hw
 set_option linter.unusedSimpArgs false
 
-set_option maxHeartbeats 2000000 in
+set_option maxHeartbeats 400000 in
 theorem chart_0 : Glue n 0 b' a c (i' + dA w) (j' + dC w) → Around n 0 a c ⟨b', i', j'⟩ := by
   intro hG
   simp only [cardinals, List.mem_cons, List.not_mem_nil, or_false] at hw
@@ -45,7 +45,7 @@ theorem chart_0 : Glue n 0 b' a c (i' + dA w) (j' + dC w) → Around n 0 a c ⟨
     next, prev, oppo, Src.eval] <;>
   simp <;> omega
 
-set_option maxHeartbeats 2000000 in
+set_option maxHeartbeats 400000 in
 theorem chart_1 : Glue n 1 b' a c (i' + dA w) (j' + dC w) → Around n 1 a c ⟨b', i', j'⟩ := by
   intro hG
   simp only [cardinals, List.mem_cons, List.not_mem_nil, or_false] at hw
@@ -62,7 +62,7 @@ theorem chart_1 : Glue n 1 b' a c (i' + dA w) (j' + dC w) → Around n 1 a c ⟨
     next, prev, oppo, Src.eval] <;>
   simp <;> omega
 
-set_option maxHeartbeats 2000000 in
+set_option maxHeartbeats 400000 in
 theorem chart_2 : Glue n 2 b' a c (i' + dA w) (j' + dC w) → Around n 2 a c ⟨b', i', j'⟩ := by
   intro hG
   simp only [cardinals, List.mem_cons, List.not_mem_nil, or_false] at hw
@@ -79,7 +79,7 @@ theorem chart_2 : Glue n 2 b' a c (i' + dA w) (j' + dC w) → Around n 2 a c ⟨
     next, prev, oppo, Src.eval] <;>
   simp <;> omega
 
-set_option maxHeartbeats 2000000 in
+set_option maxHeartbeats 400000 in
 theorem chart_3 : Glue n 3 b' a c (i' + dA w) (j' + dC w) → Around n 3 a c ⟨b', i', j'⟩ := by
   intro hG
   simp only [cardinals, List.mem_cons, List.not_mem_nil, or_false] at hw
@@ -96,7 +96,7 @@ theorem chart_3 : Glue n 3 b' a c (i' + dA w) (j' + dC w) → Around n 3 a c ⟨
     next, prev, oppo, Src.eval] <;>
   simp <;> omega
 
-set_option maxHeartbeats 2000000 in
+set_option maxHeartbeats 400000 in
 theorem chart_4 : Glue n 4 b' a c (i' + dA w) (j' + dC w) → Around n 4 a c ⟨b', i', j'⟩ := by
   intro hG
   simp only [cardinals, List.mem_cons, List.not_mem_nil, or_false] at hw
@@ -113,7 +113,7 @@ theorem chart_4 : Glue n 4 b' a c (i' + dA w) (j' + dC w) → Around n 4 a c ⟨
     next, prev, oppo, Src.eval] <;>
   simp <;> omega
 
-set_option maxHeartbeats 2000000 in
+set_option maxHeartbeats 400000 in
 theorem chart_5 : Glue n 5 b' a c (i' + dA w) (j' + dC w) → Around n 5 a c ⟨b', i', j'⟩ := by
   intro hG
   simp only [cardinals, List.mem_cons, List.not_mem_nil, or_false] at hw
@@ -130,7 +130,7 @@ theorem chart_5 : Glue n 5 b' a c (i' + dA w) (j' + dC w) → Around n 5 a c ⟨
     next, prev, oppo, Src.eval] <;>
   simp <;> omega
 
-set_option maxHeartbeats 2000000 in
+set_option maxHeartbeats 400000 in
 theorem chart_6 : Glue n 6 b' a c (i' + dA w) (j' + dC w) → Around n 6 a c ⟨b', i', j'⟩ := by
   intro hG
   simp only [cardinals, List.mem_cons, List.not_mem_nil, or_false] at hw
@@ -147,7 +147,7 @@ theorem chart_6 : Glue n 6 b' a c (i' + dA w) (j' + dC w) → Around n 6 a c ⟨
     next, prev, oppo, Src.eval] <;>
   simp <;> omega
 
-set_option maxHeartbeats 2000000 in
+set_option maxHeartbeats 400000 in
 theorem chart_7 : Glue n 7 b' a c (i' + dA w) (j' + dC w) → Around n 7 a c ⟨b', i', j'⟩ := by
   intro hG
   simp only [cardinals, List.mem_cons, List.not_mem_nil, or_false] at hw
@@ -164,7 +164,7 @@ theorem chart_7 : Glue n 7 b' a c (i' + dA w) (j' + dC w) → Around n 7 a c ⟨
     next, prev, oppo, Src.eval] <;>
   simp <;> omega
 
-set_option maxHeartbeats 2000000 in
+set_option maxHeartbeats 400000 in
 theorem chart_8 : Glue n 8 b' a c (i' + dA w) (j' + dC w) → Around n 8 a c ⟨b', i', j'⟩ := by
   intro hG
   simp only [cardinals, List.mem_cons, List.not_mem_nil, or_false] at hw
@@ -181,7 +181,7 @@ theorem chart_8 : Glue n 8 b' a c (i' + dA w) (j' + dC w) → Around n 8 a c ⟨
     next, prev, oppo, Src.eval] <;>
   simp <;> omega
 
-set_option maxHeartbeats 2000000 in
+set_option maxHeartbeats 400000 in
 theorem chart_9 : Glue n 9 b' a c (i' + dA w) (j' + dC w) → Around n 9 a c ⟨b', i', j'⟩ := by
   intro hG
   simp only [cardinals, List.mem_cons, List.not_mem_nil, or_false] at hw
@@ -198,7 +198,7 @@ theorem chart_9 : Glue n 9 b' a c (i' + dA w) (j' + dC w) → Around n 9 a c ⟨
     next, prev, oppo, Src.eval] <;>
   simp <;> omega
 
-set_option maxHeartbeats 2000000 in
+set_option maxHeartbeats 400000 in
 theorem chart_10 : Glue n 10 b' a c (i' + dA w) (j' + dC w) → Around n 10 a c ⟨b', i', j'⟩ := by
   intro hG
   simp only [cardinals, List.mem_cons, List.not_mem_nil, or_false] at hw
@@ -215,7 +215,7 @@ theorem chart_10 : Glue n 10 b' a c (i' + dA w) (j' + dC w) → Around n 10 a c 
     next, prev, oppo, Src.eval] <;>
   simp <;> omega
 
-set_option maxHeartbeats 2000000 in
+set_option maxHeartbeats 400000 in
 theorem chart_11 : Glue n 11 b' a c (i' + dA w) (j' + dC w) → Around n 11 a c ⟨b', i', j'⟩ := by
   intro hG
   simp only [cardinals, List.mem_cons, List.not_mem_nil, or_false] at hw
@@ -349,4 +349,34 @@ theorem neighbours_exact (n : Nat) (p q : HashParts) (hn : 1 ≤ n) (hn2 : n ≤
     (hq : Valid n q) (hne : q ≠ p) : (∃ dir ∈ dirs8, neighbourParts n p dir = some q) ↔ Touch n p q :=
   ⟨fun ⟨dir, _, h⟩ => neighbour_touch n p q dir hn hn2 hp h, neighbours_complete n p q hn hn2 hp hq hne⟩
 
+/-! ## the hypotheses are satisfiable; concrete instances (`n = 4`, depth 2) -/
+
+example : Valid 4 ⟨3, 3, 1⟩ ∧ neighbourParts 4 ⟨3, 3, 1⟩ NE = some ⟨0, 1, 3⟩ ∧ (⟨0, 1, 3⟩ : HashParts) ≠ ⟨3, 3, 1⟩ := by
+  decide
+/-- across the seam between the polar facets 3 and 0 the shared side is the NE side of the first cell … -/
+example : shared 4 ⟨3, 3, 1⟩ ⟨0, 1, 3⟩ = [E, N] :=
+  neighbour_labelled 4 ⟨3, 3, 1⟩ ⟨0, 1, 3⟩ NE (by decide) (by decide) (by decide) (by decide)
+/-- … and the way back is the NW direction (`direction_from_neighbour`: NE ↦ NW in the north polar cap) -/
+example : neighbourParts 4 ⟨0, 1, 3⟩ NW = some ⟨3, 3, 1⟩ := by decide
+/-- one of the 24 cells with 7 neighbours -/
+example : Special 4 ⟨3, 3, 0⟩ ∧ neighbourParts 4 ⟨3, 3, 0⟩ E = none ∧ count 4 ⟨3, 3, 0⟩ = 7 :=
+  ⟨by decide, by decide, by rw [neighbours_count 4 _ (by decide) (by decide)]; decide⟩
+example : Touch 4 ⟨3, 3, 1⟩ ⟨0, 2, 3⟩ := ⟨N, by decide, W, by decide, by decide⟩
+
+/-- the bound `n ≤ 2^32` of all the theorems cannot be dropped: the model, like the code, passes the shifted coordinates
+    as `u32` (no `u32` nside reaches that bound: `n = 2^depth ≤ 2^29`) -/
+example : neighbourParts 4294967297 ⟨0, 4294967296, 0⟩ SE = some ⟨5, 0, 4294967296⟩ ∧
+    shared 4294967297 ⟨0, 4294967296, 0⟩ ⟨5, 0, 4294967296⟩ = [] := by decide
+
 end Hpx.TopoNeigh
+
+#print axioms Hpx.TopoNeigh.neighbourParts_valid
+#print axioms Hpx.TopoNeigh.neighbour_labelled
+#print axioms Hpx.TopoNeigh.neighbours_distinct
+#print axioms Hpx.TopoNeigh.neighbours_count
+#print axioms Hpx.TopoNeigh.neighbours_count_one
+#print axioms Hpx.TopoNeigh.neighbours_complete
+#print axioms Hpx.TopoNeigh.neighbourParts_symmetric
+#print axioms Hpx.TopoNeigh.neighbours_exact
+#print axioms Hpx.TopoNeigh.vkey_injective
+#print axioms Hpx.TopoNeigh.centerXY_eq
